@@ -168,6 +168,113 @@ func c02(p *model.Prog, r *report.Result) {
 			}
 		}
 	}
+	// a prologue extracted into a helper that takes the session as a parameter: the helper's body
+	// is the region; every call site must lie inside the fresh branch of the same session, the
+	// order rule is decided inside the helper, and the flag is cleared inside the helper or, on
+	// every path, behind the call
+	for _, k := range kinds {
+		if k.fresh == nil {
+			continue
+		}
+		for _, h := range fns {
+			for _, prm := range h.Params {
+				var writes []ssa.CallInstruction
+				for _, ci := range model.CallsTo(h, k.writes...) {
+					if receiver(ci.Common()) == ssa.Value(prm) {
+						writes = append(writes, ci)
+					}
+				}
+				hasHeaderWrite := false
+				for _, w := range writes {
+					if classify(dataArg(w)) == "header" {
+						hasHeaderWrite = true
+					}
+				}
+				// not a helper region when the function tests the flag itself (handled above)
+				testsFlag := false
+				model.EachInstr(h, func(in ssa.Instruction) {
+					if iff, ok := in.(*ssa.If); ok {
+						c, _ := model.StripNot(iff.Cond, true)
+						if f, b, ok := boolFieldTest(c); ok && f == k.fresh && b == ssa.Value(prm) {
+							testsFlag = true
+						}
+					}
+				})
+				if !hasHeaderWrite || testsFlag {
+					continue
+				}
+				nRegions++
+				for _, w := range writes {
+					cl := classify(dataArg(w))
+					if cl == "header" {
+						continue
+					}
+					bad := model.PathQuery{From: w, Target: func(in ssa.Instruction) bool {
+						ci, ok := in.(ssa.CallInstruction)
+						if !ok {
+							return false
+						}
+						o := model.CalleeObj(ci.Common())
+						for _, wf := range k.writes {
+							if model.SameFunc(o, wf) && receiver(ci.Common()) == ssa.Value(prm) && classify(dataArg(ci)) == "header" {
+								return true
+							}
+						}
+						return false
+					}}.Find(h)
+					r.Check(bad == nil, "C02.R1", fkey(h, "media-then-header", k.name+":"+cl), p.InstrPos(w),
+						"no cached-header write is reachable after this "+cl+" write", "a cached header can be written after this "+cl+" write: the consumer sees media before its headers")
+				}
+				isClear := func(base ssa.Value) func(in ssa.Instruction) bool {
+					return func(in ssa.Instruction) bool {
+						st, ok := in.(*ssa.Store)
+						if !ok || model.FieldOf(st.Addr) != k.fresh || !sameValue(storeBase(st), base) {
+							return false
+						}
+						v, isc := model.ConstBool(st.Val)
+						return isc && !v
+					}
+				}
+				clearedInside := model.PathQuery{Stop: isClear(prm), Target: func(in ssa.Instruction) bool { _, ok := in.(*ssa.Return); return ok }}.Find(h) == nil
+				idx := -1
+				for i, pp := range h.Params {
+					if pp == prm {
+						idx = i
+					}
+				}
+				for _, ed := range p.Callers(h) {
+					cf := ed.Caller.Func
+					if ed.Site == nil || !model.IsLal(cf) {
+						continue
+					}
+					args := ed.Site.Common().Args
+					if idx < 0 || idx >= len(args) {
+						continue
+					}
+					arg := args[idx]
+					r.Check(guardedByFieldFlag(ed.Site, k.fresh, arg, true), "C02.R1", fkey(cf, "hdr-in-region", k.name), p.InstrPos(ed.Site),
+						"prologue helper called inside the fresh region", "the prologue helper (which writes cached headers) is called outside the fresh region of the session: headers would follow media")
+					if !clearedInside {
+						var hdr *ssa.BasicBlock
+						if n := iterOrigin(arg); n != nil {
+							hdr = n.Block()
+						}
+						bad := model.PathQuery{From: ed.Site, Stop: isClear(arg), Target: func(in ssa.Instruction) bool {
+							switch x := in.(type) {
+							case *ssa.Return:
+								return true
+							case *ssa.Next:
+								return hdr != nil && x.Block() == hdr
+							}
+							return false
+						}}.Find(cf)
+						r.Check(bad == nil, "C02.R1", fkey(cf, "fresh-cleared", k.name), p.InstrPos(ed.Site),
+							"IsFresh=false stored behind the prologue helper on every path", "the fresh region can be left with IsFresh still true: the prologue is replayed on the next message, headers after media")
+					}
+				}
+			}
+		}
+	}
 	if nRegions < 4 {
 		r.Bad("C02.R1", "floor", "", "fewer than 4 prologue regions (rtmp sub, relay push, httpflv, httpts) found")
 	}
